@@ -11,7 +11,7 @@ ASSUMPTIONS = ["interior = 10% margin from the box (the DCT's implicit even exte
 
 
 def plan(tier, seed):
-    ntr = 4 if tier == "quick" else 60
+    ntr = 8 if tier == "quick" else 60
     shards = 4 if tier == "quick" else 12
     sizes = [17, 25, 33, 49] if tier == "quick" else [17, 25, 33, 49, 65, 97, 129]
     jobs = [{"name": "c18-unit-%d" % k, "module": "vmon.jobs.c18_unit", "args": {"seed": 1000 * seed + k, "trials": max(1, ntr // shards), "sizes": sizes}, "timeout": 3000} for k in range(shards)]
@@ -19,5 +19,5 @@ def plan(tier, seed):
 
 
 def required(tier, classes, records):
-    pats = [("spline increasing", r"spline\|psi1D increasing"), ("spline decreasing", r"spline\|psi1D decreasing"), ("dct increasing", r"dct\|psi1D increasing"), ("dct decreasing", r"dct\|psi1D decreasing"), ("both", "^both$")]
+    pats = [("spline increasing", r"spline\|psi1D increasing"), ("spline decreasing", r"spline\|psi1D decreasing"), ("dct increasing", r"dct\|psi1D increasing"), ("dct decreasing", r"dct\|psi1D decreasing"), ("both", "^both$"), ("a domain with max(Z) > max(R)", r"max\(Z\)>max\(R\)")]
     return need_classes(classes, pats)
